@@ -33,6 +33,7 @@ type Drv struct {
 	WriterFailAt    int
 	WriterShort     bool
 	WriterOnce      bool
+	NilCtx          bool   // WithMassive(nil): documented to mean context.Background()
 	ExtraOpts       string // comma-separated extra options applied in this order: json yaml dry exts fmt noiter nil
 	ErrFlavour      string // "" | canceled-wrapped | deadline-wrapped: what the injected reader/writer error wraps
 	CbFailAt        int
@@ -177,7 +178,11 @@ func (r *DrvRun) Body() {
 
 	var opts []gtree.Option
 	if !d.Simple {
-		opts = append(opts, gtree.WithMassive(ctx))
+		if d.NilCtx {
+			opts = append(opts, gtree.WithMassive(nil))
+		} else {
+			opts = append(opts, gtree.WithMassive(ctx))
+		}
 	}
 	if len(d.Exts) > 0 {
 		opts = append(opts, gtree.WithFileExtensions(d.Exts))
